@@ -4,10 +4,10 @@
 #   with the change: existing suite passes (77) and the demo fails; without it: the demo passes.
 # Appends a JSON line to /tmp/wt/confirm.log
 set -u
-NAME="$1"; DIR="$2"; CRATE="$3"
+NAME="$1"; DIR="$2"; CRATE="$3"; BASE="${4:-$(git -C /repo rev-parse HEAD)}"
 WT=/tmp/wt/confirm
 [ -d "$WT" ] || git -C /repo worktree add -q --detach "$WT" HEAD
-cd "$WT" && git checkout -q --detach "$(git -C /repo rev-parse HEAD)" && git checkout -- . && git clean -fdq -e target
+cd "$WT" && git checkout -q --detach "$BASE" && git checkout -- . && git clean -fdq -e target
 PKG=$(grep -m1 '^name' "$CRATE/Cargo.toml" | sed 's/.*"\(.*\)".*/\1/')
 git apply "$DIR/patch.diff" || { echo "{\"seed\":\"$NAME\",\"error\":\"patch does not apply\"}" >> /tmp/wt/confirm.log; exit 1; }
 mkdir -p "$CRATE/tests"; cp "$DIR/demo.rs" "$CRATE/tests/verif_demo.rs"
@@ -17,4 +17,4 @@ git apply -R "$DIR/patch.diff"
 DEMO_WITHOUT=$(cargo test --offline -p "$PKG" --test verif_demo 2>&1 | grep -E "^test result" | awk '{p+=$4; f+=$6} END {print p" "f}')
 rm -f "$CRATE/tests/verif_demo.rs"; rmdir "$CRATE/tests" 2>/dev/null
 git checkout -- . ; git clean -fdq -e target
-echo "{\"seed\":\"$NAME\",\"suite_plus_demo_with_change_pass_fail\":\"$SUITE\",\"demo_with_change_pass_fail\":\"$DEMO_WITH\",\"demo_without_change_pass_fail\":\"$DEMO_WITHOUT\"}" >> /tmp/wt/confirm.log
+echo "{\"seed\":\"$NAME\",\"base\":\"$BASE\",\"suite_plus_demo_with_change_pass_fail\":\"$SUITE\",\"demo_with_change_pass_fail\":\"$DEMO_WITH\",\"demo_without_change_pass_fail\":\"$DEMO_WITHOUT\"}" >> /tmp/wt/confirm.log
